@@ -12,8 +12,8 @@ LEVEL_NOTE = ("nalgebra's SVD is not modelled: its singular values are tied to t
 OPS = {"schmidt"}
 TOL = {"schmidt": ("rel", 1e-9)}
 DEFAULT_TOL = ("exact",)
-RULE = ("family schmidt: one random array of every length 0-150 (quick) / 0-1700 (thorough); every side 1-6 x 6 kinds (random, rank-1, equal diagonal, "
-        "equal permutation pattern, near-separable, ridge) then seeded random sides 1-12 / 1-40; two cases in three carry a global complex factor "
+RULE = ("family schmidt: one random array of every length 0-150 (quick) / 0-1700 (thorough); every side 1-6 x 10 kinds (random, rank-1, equal diagonal, "
+        "equal permutation pattern, near-separable, ridge, zero border rows, zero border columns, block-sparse, diagonal with holes) then seeded random sides 1-12 / 1-40; two cases in three carry a global complex factor "
         "log-uniform in 1e-30..1e+30 and every clause (bounds, extremes, correspondence) is evaluated on the scaled array; each with a variant scaled by "
         "another factor from the same sixty decades, a phased and a transposed variant; JointSpectrum::schmidt_number on random setups built with every integrator variant in turn (Simpson, Gauss-Legendre, AdaptiveSimpson, ClenshawCurtis; GaussKonrod skipped: D40) with square ranges, "
         "rectangular ranges of square length (4x9, 2x8, 3x12, 1x4, 9x4 ...) and of non-square length (6x11, 2x3 ... => Err)")
